@@ -36,6 +36,14 @@ CLAIMED["C09"] = dict(
          "RDB/gRPC transports are modelled only by the id offset",
     design="§3 C09")
 
+CLAIMED["C20"] = dict(
+    text="Bounded symbolic execution over the finite product (backend x getter x 1-2 setters) of the real Study/Trial/storage getters and "
+         "setters with z3-real values: objects returned by a getter are snapshotted structurally, setters run, earlier objects must equal "
+         "their snapshots; deep-copied results are mutated in every field and fresh reads must be unaffected.",
+    note="backends: InMemoryStorage, JournalStorage over an in-memory list backend, _CachedStorage over the fake RDB (fresh objects per read, "
+         "as the real RDB builds them); cross-thread mutation mid-read is C03",
+    design="§3 C20")
+
 NOT_APPLICABLE = {
     "C03": "thread/process pre-emption at source-line granularity inside the storage layer cannot be made a symbolic variable over the "
            "real Python code by a solver-based executor; its atomic-step obligations are discharged under C01/C04/C06/C07",
